@@ -26,6 +26,18 @@ CHECKS = {
              'larger ranges and many seeds must be a behaviour of the specification with the same invariants.',
         note='Which permutation is drawn is left to NumPy; re-shuffling asserted only for N>=8 over >=3 windows.',
         design='5/C04'),
+    'C07': dict(
+        technique='TLA+ specs Aggregation.tla (one-pass fold, donated accumulator, buffer table) and Clip.tla (exact '
+                  'rational clipping) model-checked by TLC; emitted cases replayed into tree_sum/tree_mean/'
+                  'mean_aggregator/tree_clip_by_global_norm; random trees as PureHistory facts judged by TLC',
+        text='TLC proves exact weighted mean, zero-total guard, hull, order independence, caller-buffer liveness, '
+             'non-aliasing and the one-pass discipline of the fold for all small inputs and orders, and norm/direction/'
+             'identity of clipping on Pythagorean vectors; every emitted case is executed on the real functions with '
+             'NumPy and JAX leaves and list/generator/map inputs, comparing the value with the TLC rational and '
+             'inspecting every caller array (deleted? changed? aliased?).',
+        note='float32 rounding tolerated when the denominator is not a power of two; aliasing observable for JAX '
+             'arrays only.',
+        design='5/C07'),
     'C08': dict(
         technique='TLA+ spec FedData.tla (views in both the materialised-set and the accumulated-range representation) '
                   'model-checked by TLC; every enumerated history replayed simultaneously into InMemory/SQLite/Subset '
